@@ -75,7 +75,11 @@ func main() {
 		}
 		fmt.Fprintf(out, "{\"start\":%d}\n", rf.Idx)
 		out.Flush()
+		for i := rf.Idx - rf.Prefix; i < rf.Idx; i++ {
+			runOne(rf.Prop, *variant, rf.VerifSeed, i, *nSites, nil, false) // process history only
+		}
 		res := runOne(rf.Prop, *variant, rf.VerifSeed, rf.Idx, *nSites, rf.Tape, true)
+		res.JobFrom = rf.Idx - rf.Prefix
 		_ = enc.Encode(res)
 		return
 	}
@@ -88,6 +92,7 @@ func main() {
 		if len(res.Violations) == 0 && !*keepTape {
 			res.Tape = nil
 		}
+		res.JobFrom = *from
 		_ = enc.Encode(res)
 		out.Flush()
 	}
